@@ -70,7 +70,7 @@ def go_round(x):
 class C06(Prop):
     id = "C06"
     lean_modules = ["Fan2go.Props.C06"]
-    fact_modules = ["Fan2go.Props.Facts", "Fan2go.Props.Trans", "Fan2go.Props.Trans2Interp", "Fan2go.Props.Trans2Evaluate"]
+    fact_modules = ["Fan2go.Props.Facts", "Fan2go.Props.Trans", "Fan2go.Props.Trans2Interp", "Fan2go.Props.Trans2Evaluate", "Fan2go.Props.Trans3Leaf"]
     rule = ("curve: real LinearSpeedCurve / FunctionSpeedCurve / PidSpeedCurve objects in the real registries over mock sensors "
             "(bit patterns), virtual clock for PID; linear min<max and min>=max, 1..12 steps with integer / fractional speeds and "
             "negative / huge temperatures; readings at boundaries +-1 m-degree, negative, 0, 1e300, subnormal; six function types "
